@@ -666,3 +666,228 @@ Proof.
     + apply (m_local _ _ _ _ _ M hh i). left. auto.
     + inversion E; subst i0. apply (m_local _ _ _ _ _ M hh i). right. exact Hin.
 Qed.
+
+(** * expiry: [getTimeoutIBTPsMap] and [setTimeoutRollback] *)
+Definition in_l (x : tok) (l : list tok) : bool := existsb (tok_eqb x) l.
+Lemma in_l_spec x l : in_l x l = true <-> In x l.
+Proof.
+  unfold in_l. rewrite existsb_exists. split.
+  - intros [y [Hy E]]. apply tok_eqb_eq in E. subst. exact Hy.
+  - intro H. exists x. split; [exact H | apply tok_eqb_refl].
+Qed.
+
+Definition rolled (gi : ginfo) : ginfo :=
+  Build_ginfo ST_BEGIN_ROLLBACK (g_height gi) (children_all ST_BEGIN_ROLLBACK (g_children gi)) (g_count gi).
+
+Lemma rollback_spec h : forall l t,
+  NoDup l -> ~ In TEmpty l -> (forall g, In (TGid g) l -> tm_glob t g <> None) ->
+  exists t3, timeout_rollback t h l = Some t3 /\
+    tm_child t3 = tm_child t /\ tm_tl t3 = tm_tl t /\
+    (forall i, tm_rec t3 i = if in_l (TTx i) l then Some (h, ST_BEGIN_ROLLBACK) else tm_rec t i) /\
+    (forall g, tm_glob t3 g = if in_l (TGid g) l
+                              then match tm_glob t g with Some gi => Some (rolled gi) | None => None end
+                              else tm_glob t g).
+Proof.
+  induction l as [|x r IH]; intros t Hnd Hne Hg.
+  - exists t. simpl. repeat split; auto.
+  - inversion Hnd as [|? ? Hxr Hnd']; subst.
+    destruct x as [|i|g].
+    + exfalso. apply Hne. left. reflexivity.
+    + simpl. destruct (IH (set_rec t i (h, ST_BEGIN_ROLLBACK)) Hnd') as [t3 [E [C [L [R G]]]]].
+      * intro H. apply Hne. right. exact H.
+      * intros g Hin. simpl. apply Hg. right. exact Hin.
+      * exists t3. split; [exact E|]. split; [exact C|]. split; [exact L|]. split.
+        -- intro j. rewrite R. unfold in_l. cbn [existsb tok_eqb set_rec tm_rec]. unfold upd.
+           destruct (txid_eqb j i) eqn:Eij; cbn [orb].
+           ++ destruct (existsb (tok_eqb (TTx j)) r); reflexivity.
+           ++ reflexivity.
+        -- intro g. rewrite G. unfold in_l. cbn [existsb tok_eqb orb]. reflexivity.
+    + simpl. destruct (tm_glob t g) as [gi|] eqn:Egl.
+      2:{ exfalso. apply (Hg g); [left; reflexivity | exact Egl]. }
+      fold (rolled gi).
+      destruct (IH (set_glob t g (rolled gi)) Hnd') as [t3 [E [C [L [R G]]]]].
+      * intro H. apply Hne. right. exact H.
+      * intros g0 Hin. simpl. unfold upd. destruct (gid_eqb g0 g); [discriminate | apply Hg; right; exact Hin].
+      * exists t3. split; [exact E|]. split; [exact C|]. split; [exact L|]. split.
+        -- intro j. rewrite R. unfold in_l. cbn [existsb tok_eqb orb]. reflexivity.
+        -- intro g0. rewrite G. unfold in_l. cbn [existsb tok_eqb set_glob tm_glob]. unfold upd.
+           destruct (gid_eqb g0 g) eqn:Eg; cbn [orb].
+           ++ apply gid_eqb_eq in Eg. subst g0. rewrite Egl.
+              destruct (existsb (tok_eqb (TGid g)) r) eqn:Er; [|reflexivity].
+              exfalso. apply Hxr. apply in_l_spec. exact Er.
+           ++ reflexivity.
+Qed.
+
+Lemma timeout_map_total w t : forall l m,
+  ~ In TEmpty l -> (forall g, In (TGid g) l -> tm_glob t g <> None) ->
+  exists m', timeout_map w t l m = Some m'.
+Proof.
+  induction l as [|x r IH]; intros m Hne Hg.
+  - eexists. reflexivity.
+  - destruct x as [|i|g].
+    + exfalso. apply Hne. left. reflexivity.
+    + simpl. apply IH; [intro H; apply Hne; right; exact H | intros g Hin; apply Hg; right; exact Hin].
+    + simpl. destruct (tm_glob t g) as [gi|] eqn:E.
+      * apply IH; [intro H; apply Hne; right; exact H | intros g0 Hin; apply Hg; right; exact Hin].
+      * exfalso. apply (Hg g); [left; reflexivity | exact E].
+Qed.
+
+(** the list read for the current height *)
+Lemma get_timeout_list_spec w t H :
+  TInv w t H ->
+  let l := get_timeout_list t (H + 1) in
+  NoDup l /\ ~ In TEmpty l /\ (forall x, In x l <-> x <> TEmpty /\ listed t (H + 1) x).
+Proof.
+  intro M. unfold get_timeout_list. destruct (tm_tl t (H + 1)) as [l|] eqn:E.
+  - destruct (m_ok _ _ _ _ _ M _ _ E) as [Hnd [Hne Hemp]].
+    destruct l as [|x r]; [contradiction|]. destruct x as [|i|g].
+    + assert (r = []) by (specialize (Hemp (or_introl eq_refl)); inversion Hemp; reflexivity). subst r.
+      simpl. split; [constructor|]. split; [tauto|]. intro x. split; [contradiction|].
+      intros [Hx [l [El Hin]]]. rewrite E in El. inversion El; subst. destruct Hin as [Hin | []]. congruence.
+    + assert (Hnt : ~ In TEmpty (TTx i :: r)) by (intro Hin; specialize (Hemp Hin); discriminate).
+      split; [exact Hnd|]. split; [exact Hnt|]. intro x. split.
+      * intro Hx. split; [intro; subst; contradiction | exists (TTx i :: r); auto].
+      * intros [_ [l [El Hin]]]. rewrite E in El. inversion El; subst. exact Hin.
+    + assert (Hnt : ~ In TEmpty (TGid g :: r)) by (intro Hin; specialize (Hemp Hin); discriminate).
+      split; [exact Hnd|]. split; [exact Hnt|]. intro x. split.
+      * intro Hx. split; [intro; subst; contradiction | exists (TGid g :: r); auto].
+      * intros [_ [l [El Hin]]]. rewrite E in El. inversion El; subst. exact Hin.
+  - simpl. split; [constructor|]. split; [tauto|]. intro x. split; [contradiction|].
+    intros [_ [l [El _]]]. rewrite E in El. discriminate.
+Qed.
+
+(** * the whole block *)
+Lemma binv_tm_ext w t t' c :
+  BInv w t c ->
+  (forall i, tm_rec t' i <> None <-> tm_rec t i <> None) -> tm_child t' = tm_child t ->
+  (forall g, match tm_glob t g with
+             | Some gi => exists gi', tm_glob t' g = Some gi' /\ map fst (g_children gi') = map fst (g_children gi)
+             | None => tm_glob t' g = None
+             end) ->
+  BInv w t' c.
+Proof.
+  intros [B1 B2 B3 B4 B5 B6 B7 B8 G1 G2 G3 G4 G5] Hr Hc Hg.
+  assert (Hb : forall i, begun t' i <-> begun t i).
+  { intro i. unfold begun. rewrite Hr, Hc. tauto. }
+  constructor; auto.
+  - intros f t0 x Hx. apply B2. apply Hb. exact Hx.
+  - intros f t0 x Hx. apply Hb. apply B3. exact Hx.
+  - intros i Hi. apply Hb. apply B8. exact Hi.
+  - intros i g Hi. rewrite Hc in Hi. destruct (G1 i g Hi) as [gi [E Hl]].
+    specialize (Hg g). rewrite E in Hg. destruct Hg as [gi' [E' Hk]].
+    exists gi'. split; [exact E'|]. apply child_lookup_keys. rewrite Hk. apply child_lookup_keys. exact Hl.
+  - intros g gi' i E' Hl. rewrite Hc. specialize (Hg g). destruct (tm_glob t g) as [gi|] eqn:E.
+    + destruct Hg as [gi0 [E0 Hk]]. rewrite E' in E0. inversion E0; subst gi0.
+      apply (G2 g gi i E). apply child_lookup_keys. rewrite <- Hk. apply child_lookup_keys. exact Hl.
+    + congruence.
+  - intros g gi' E'. specialize (Hg g). destruct (tm_glob t g) as [gi|] eqn:E.
+    + destruct Hg as [gi0 [E0 Hk]]. rewrite E' in E0. inversion E0; subst gi0. rewrite Hk. eapply G3; eauto.
+    + congruence.
+  - intros i Hi. rewrite Hc in Hi. specialize (G4 i Hi). destruct (tm_rec t' i) eqn:E; [|reflexivity].
+    exfalso. assert (tm_rec t' i <> None) by congruence. apply Hr in H. contradiction.
+  - intros i g sf sd Hi. rewrite Hc in Hi. eapply G5; eauto.
+Qed.
+
+Record SInv (w : world) (st : state) : Prop := {
+  si_b : BInv w (s_tm st) (s_ic st);
+  si_t : TInv w (s_tm st) (s_h st)
+}.
+
+Lemma sinv_init w : SInv w state_init.
+Proof. constructor; [apply binv_init | apply tinv_init]. Qed.
+
+(** everything a block does, under [cfg_fixed], from an invariant state; [mid] is the state after
+    the transactions, [t2] the transaction manager after setTimeoutList *)
+Record block_facts (w : world) (st : state) (ops : list op) (st' : state) (bm : bmeta)
+       (mid : state) (t2 : txm) : Prop := {
+  bf_h : s_h st' = s_h st + 1;
+  bf_ops : apply_ops cfg_fixed w (s_h st + 1) 0 false st ops = Some (mid, m_res bm);
+  bf_len : List.length (m_res bm) = List.length ops;
+  bf_mid_inv : BInv w (s_tm mid) (s_ic mid);
+  bf_mid_h : s_h mid = s_h st;
+  bf_ic : s_ic st' = s_ic mid;
+  bf_stl : set_timeout_list cfg_fixed w (s_tm mid) (s_h st + 1) ops (m_res bm) = Some t2;
+  bf_t2_rec : tm_rec t2 = tm_rec (s_tm mid);
+  bf_t2_glob : tm_glob t2 = tm_glob (s_tm mid);
+  bf_t2_child : tm_child t2 = tm_child (s_tm mid);
+  bf_t2_inv : TInv w t2 (s_h st);
+  bf_t2_mem : forall hh x, x <> TEmpty ->
+       (listed t2 hh x <-> (listed (s_tm mid) hh x \/
+                            exists i, x = TTx i /\ In (hh, i) (pend_of w (s_h st + 1) (combine ops (m_res bm))))
+                           /\ ~ (exists i, x = TTx i /\ In (hh, i) (rems_of (s_tm mid) (combine ops (m_res bm)))));
+  bf_mid_tm : TMid w (s_tm mid) (s_h st) (rcv_of (combine ops (m_res bm))) (pend_of w (s_h st + 1) (combine ops (m_res bm)));
+  bf_tmap : timeout_map w t2 (get_timeout_list t2 (s_h st + 1)) (fun _ => []) = Some (m_timeout bm);
+  bf_multi : m_multi bm = get_multi (s_ic mid) (s_h st + 1);
+  bf_rec : forall i, tm_rec (s_tm st') i =
+                     if in_l (TTx i) (get_timeout_list t2 (s_h st + 1)) then Some (s_h st + 1, ST_BEGIN_ROLLBACK)
+                     else tm_rec (s_tm mid) i;
+  bf_glob : forall g, tm_glob (s_tm st') g =
+                      if in_l (TGid g) (get_timeout_list t2 (s_h st + 1))
+                      then match tm_glob (s_tm mid) g with Some gi => Some (rolled gi) | None => None end
+                      else tm_glob (s_tm mid) g;
+  bf_child : tm_child (s_tm st') = tm_child (s_tm mid);
+  bf_tl : tm_tl (s_tm st') = tm_tl t2
+}.
+
+Theorem exec_block_fixed w st ops :
+  SInv w st -> Forall (op_wf w) ops -> s_h st + 1 < W64 ->
+  exists st' bm mid t2, exec_block cfg_fixed w st ops = Some (st', bm) /\ SInv w st' /\ block_facts w st ops st' bm mid t2.
+Proof.
+  intros [I T] Hwf Hh.
+  unfold exec_block. rewrite (wrap64_small (s_h st + 1) Hh).
+  set (H := s_h st) in *. set (h := H + 1) in *.
+  assert (M0 : TMid w (s_tm st) H (rcv_of []) (pend_of w h [])).
+  { eapply tmid_weaken_rcv; [|exact T]. intros i []. }
+  destruct (apply_ops_inv w h H eq_refl Hh ops 0 false st [] Hwf I M0) as [st1 [rs [E1 [Hlen [I1 [M1 [R1 [Mono1 [Eh1 Ep1]]]]]]]]].
+  { intros j [b [p [r [[] _]]]]. }
+  rewrite E1. simpl app in M1, R1.
+  destruct (set_timeout_list_inv w (s_tm st1) H h ops rs eq_refl Hlen M1 R1) as [t2 [E2 [Q1 [Q2 [Q3 [T2 Hmem]]]]]].
+  rewrite E2.
+  destruct (get_timeout_list_spec w t2 H T2) as [Lnd [Lne Lin]]. fold h in Lnd, Lne, Lin.
+  set (l := get_timeout_list t2 h) in *.
+  assert (Lg : forall g, In (TGid g) l -> tm_glob t2 g <> None).
+  { intros g Hin. apply Lin in Hin. destruct Hin as [_ Hl].
+    destruct (m_gid _ _ _ _ _ T2 h g ltac:(unfold h; lia) Hl) as [gi [E _]]. congruence. }
+  destruct (timeout_map_total w t2 l (fun _ => []) Lne Lg) as [tmap Etm]. rewrite Etm.
+  destruct (rollback_spec h l t2 Lnd Lne Lg) as [t3 [E3 [C3 [L3 [R3 G3]]]]]. rewrite E3.
+  eexists. eexists. exists st1, t2. split; [reflexivity|].
+  assert (Lrec : forall i, In (TTx i) l -> tm_rec t2 i = Some (h, ST_BEGIN)).
+  { intros i Hin. apply Lin in Hin. destruct Hin as [_ Hl].
+    destruct (m_tx _ _ _ _ _ T2 h i ltac:(unfold h; lia) Hl) as [s [E [Hs | []]]]. subst s. exact E. }
+  split.
+  - constructor; cbn [s_tm s_ic s_h].
+    + (* BInv *)
+      apply (binv_tm_ext w (s_tm st1) t3 (s_ic st1) I1).
+      * intro i. rewrite R3. destruct (in_l (TTx i) l) eqn:Ei.
+        -- apply in_l_spec in Ei. rewrite <- Q1, (Lrec i Ei). split; discriminate.
+        -- rewrite Q1. tauto.
+      * congruence.
+      * intro g. rewrite G3, Q2. destruct (tm_glob (s_tm st1) g) as [gi|] eqn:Eg.
+        -- destruct (in_l (TGid g) l).
+           ++ exists (rolled gi). split; [reflexivity|]. simpl. apply children_all_keys.
+           ++ exists gi. auto.
+        -- destruct (in_l (TGid g) l); reflexivity.
+    + (* TInv at the new height *)
+      assert (Ll : forall hh x, listed t3 hh x <-> listed t2 hh x) by (apply listed_ext; exact L3).
+      constructor.
+      * intros hh l0 E0. rewrite L3 in E0. exact (m_ok _ _ _ _ _ T2 hh l0 E0).
+      * intros hh i Hlt Hl. apply Ll in Hl.
+        destruct (m_tx _ _ _ _ _ T2 hh i ltac:(unfold h in Hlt; lia) Hl) as [s [E [Hs | []]]]. subst s.
+        exists ST_BEGIN. split; [|left; reflexivity]. rewrite R3.
+        destruct (in_l (TTx i) l) eqn:Ei; [|exact E].
+        apply in_l_spec in Ei. rewrite (Lrec i Ei) in E. inversion E. unfold h in *. lia.
+      * intros hh i [].
+      * constructor.
+      * intros hh g Hlt Hl. apply Ll in Hl.
+        destruct (m_gid _ _ _ _ _ T2 hh g ltac:(unfold h in Hlt; lia) Hl) as [gi [E [Hs Hhh]]].
+        rewrite G3. destruct (in_l (TGid g) l) eqn:Eg.
+        -- apply in_l_spec in Eg. apply Lin in Eg. destruct Eg as [_ Hl'].
+           destruct (m_gid _ _ _ _ _ T2 h g ltac:(unfold h; lia) Hl') as [gi' [E' [_ Hh']]].
+           rewrite E in E'. inversion E'; subst gi'. unfold h in *. lia.
+        -- exists gi. auto.
+      * intros hh i [[Hlt Hl] | []]. apply Ll in Hl. apply (m_local _ _ _ _ _ T2 hh i). left. split; [unfold h in Hlt; lia | exact Hl].
+  - constructor; cbn [s_tm s_ic s_h m_res m_timeout m_multi]; auto.
+    + intro i. rewrite R3, Q1. reflexivity.
+    + intro g. rewrite G3, Q2. reflexivity.
+    + congruence.
+Qed.
